@@ -148,19 +148,25 @@ func vfSerGen(rt *rapid.T, kinds []string) vfSerCase {
 		c.Vec = &v
 		// continuation: the tail of a second generated history with the same dimension
 		cont := vfC02Gen(rt)
+		// the second history was generated for its own dimension: vectors are cut / zero-padded
+		fit := func(x []float32) []float32 {
+			out := make([]float32, v.Dim)
+			copy(out, x)
+			if DistanceKind(v.Metric) == Cosine && vfIsZero(out) {
+				out[0] = 1
+			}
+			return out
+		}
 		for _, op := range cont.Ops {
-			if (op.Op == "add" || op.Op == "add_bad") && len(op.Vec) != v.Dim {
+			if op.Op == "add_bad" && len(op.Vec) != v.Dim {
 				continue
 			}
+			if op.Op == "add" {
+				op.Vec = fit(op.Vec)
+			}
 			if op.Op == "search" {
-				ok := true
-				for _, q := range op.Qs {
-					if len(q) != v.Dim {
-						ok = false
-					}
-				}
-				if !ok {
-					continue
+				for qi := range op.Qs {
+					op.Qs[qi] = fit(op.Qs[qi])
 				}
 				if op.NP > v.NList+1 {
 					op.NP = v.NList
@@ -684,6 +690,20 @@ func (s *vfSerState) fullScan() [][]vfHit64 {
 }
 
 // removeOne removes one live document (all kinds); reports whether the object accepted it.
+// flushNow flushes the object under test (every kind has a Flush).
+func (s *vfSerState) flushNow() error {
+	switch s.c.Kind {
+	case "bm25":
+		return s.bm.Flush()
+	case "metadata":
+		return s.mi.Flush()
+	case "hybrid":
+		return s.hy.Flush()
+	default:
+		return s.ut.idx.Flush()
+	}
+}
+
 func (s *vfSerState) removeOne(id uint32) bool {
 	var err error
 	switch s.c.Kind {
